@@ -441,9 +441,21 @@ where
     LM: MatchLiteral,
     <T as FromStr>::Err: Debug,
 {
+    // A commutative operator between two numbers may jump the queue of its priority level to
+    // enable compilation. This is only invisible if its left neighbor is either of lower priority
+    // or the same operator.
+    let can_jump_queue = |bin_op_idx: usize| {
+        bin_op_idx == 0 || {
+            let (left, op) = (&bin_ops[bin_op_idx - 1], &bin_ops[bin_op_idx]);
+            left.op.prio < op.op.prio || (left.op.prio == op.op.prio && left.idx == op.idx)
+        }
+    };
     let prio_increase =
         |bin_op_node_idx: usize| match (&nodes[bin_op_node_idx], &nodes[bin_op_node_idx + 1]) {
-            (DeepNode::Num(_), DeepNode::Num(_)) if bin_ops[bin_op_node_idx].op.is_commutative => {
+            (DeepNode::Num(_), DeepNode::Num(_))
+                if bin_ops[bin_op_node_idx].op.is_commutative
+                    && can_jump_queue(bin_op_node_idx) =>
+            {
                 let prio_inc = 5;
                 &bin_ops[bin_op_node_idx].op.prio * 10 + prio_inc
             }
